@@ -823,7 +823,8 @@ def _alarm(*_a):
     raise _Timeout()
 
 
-def _init_worker(repo: str) -> None:
+def _init_worker(repo: str, root: str | None = None) -> None:
+    """root: scratch directory owned (and removed) by the parent; workers only create sub-directories in it."""
     import resource
     import signal
 
@@ -834,10 +835,12 @@ def _init_worker(repo: str) -> None:
     except (ValueError, OSError):
         pass
     signal.signal(signal.SIGALRM, _alarm)
-    _W["scratch"] = tempfile.mkdtemp(prefix="verif-C10w-")
-    import atexit
+    if root is None:
+        root = tempfile.mkdtemp(prefix="verif-C10w-")
+        import atexit
 
-    atexit.register(shutil.rmtree, _W["scratch"], True)
+        atexit.register(shutil.rmtree, root, True)
+    _W["scratch"] = tempfile.mkdtemp(prefix="w-", dir=root)
 
 
 def _ensure_worker(repo: str) -> None:
@@ -1099,8 +1102,8 @@ def build_items(ctx: Ctx, pool) -> tuple[list[dict], dict]:
     items: list[dict] = []
     stats: dict = {}
     # (a) corpus
-    big = valid_corpus(ctx.seed, 400 if thorough else 120, size=4)
-    small = valid_corpus(ctx.seed + 1, 1500 if thorough else 30, size=2, with_macros=True)[len(COVERAGE_PROGRAMS) :]
+    big = valid_corpus(ctx.seed, 250 if thorough else 120, size=4)
+    small = valid_corpus(ctx.seed + 1, 1000 if thorough else 30, size=2, with_macros=True)[len(COVERAGE_PROGRAMS) :]
     fixtures = repo_fixture_programs(ctx.repo)
     corpus: list[dict] = []
     for name, text in big:
@@ -1111,6 +1114,19 @@ def build_items(ctx: Ctx, pool) -> tuple[list[dict], dict]:
         corpus.append({"cls": "corpus:ssbscript", "sig_cls": "corpus", "variant": name, "text": text, "must_reject": False, "tok": True})
     for fx in fixtures:
         corpus.append({"cls": "corpus:fixture", "sig_cls": "corpus", "variant": fx["name"], "text": fx["text"], "path": fx["path"], "abs_lookup": fx["lookup"], "must_reject": False, "tok": True})
+    # optional second source of programs: gen/programs.py (built by another agent; used when importable, never required)
+    stats["gen_programs"] = 0
+    try:
+        from gen import programs as _GP
+
+        for gi, gp in enumerate(_GP.random_programs(ctx.seed, 1500 if thorough else 150, 20)):
+            gt = _GP.to_text(gp)
+            if "macro" in gt and "Position<" in gt:
+                continue  # may hit the known non-termination (dedicated witnesses below); keep the run time bounded
+            corpus.append({"cls": "corpus:gen", "sig_cls": "corpus", "variant": f"gen{gi}", "text": gt, "must_reject": False, "tok": thorough and gi % 10 == 0})
+            stats["gen_programs"] += 1
+    except Exception as e:  # noqa: BLE001 - optional input source
+        stats["gen_programs_error"] = repr(e)[:200]
     for name, text in MACRO_POSMARK_PROGRAMS:
         corpus.append({"cls": "corpus:macro-posmark", "sig_cls": "valid:macro-calls-macro-with-position-mark", "variant": name, "text": text, "must_reject": False, "risky": True})
     items += corpus
@@ -1121,7 +1137,7 @@ def build_items(ctx: Ctx, pool) -> tuple[list[dict], dict]:
     seen: set[str] = set()
     n_tok = 0
     for bi, (c, sp) in enumerate(zip(base_for_tokens, spans)):
-        for op, t in token_corruptions(c["text"], sp, bi, n_repl=3 if thorough else 1):
+        for op, t in token_corruptions(c["text"], sp, bi, n_repl=2 if thorough else 1):
             it = {"cls": f"token-corruption:{op}", "sig_cls": "token-corruption", "variant": c["variant"], "text": t, "must_reject": False}
             if "path" in c:
                 it["path"], it["abs_lookup"] = c["path"], c["abs_lookup"]
@@ -1217,7 +1233,17 @@ def run(ctx: Ctx) -> PropResult:
 
     t0 = time.time()
     mp = multiprocessing.get_context("spawn")
-    with mp.Pool(ctx.jobs, initializer=_init_worker, initargs=(ctx.repo,)) as pool:
+    root = tempfile.mkdtemp(prefix="verif-C10-")
+    try:
+        return _run(ctx, res, mp, root, t0)
+    finally:
+        shutil.rmtree(root, ignore_errors=True)
+
+
+def _run(ctx: Ctx, res: PropResult, mp, root: str, t0: float) -> PropResult:
+    import time
+
+    with mp.Pool(ctx.jobs, initializer=_init_worker, initargs=(ctx.repo, root)) as pool:
         items, stats = build_items(ctx, pool)
         stats["t_build"] = round(time.time() - t0, 1)
         # risky (possibly hanging) items first so they overlap with the rest
@@ -1327,11 +1353,15 @@ def replay(record: dict, ctx: Ctx) -> bool:
     item = record["input"]
     mode = item.get("mode", "api")
     mp = multiprocessing.get_context("spawn")
-    with mp.Pool(1, initializer=_init_worker, initargs=(ctx.repo,)) as pool:
-        if mode == "cli":
-            both = pool.apply(eval_cli, ((item, ctx.repo),))
-            vs = judge_cli(item, both)
-        else:
-            r = pool.apply(eval_item, ((item, ctx.repo),))
-            vs = judge_api(item, r)
+    root = tempfile.mkdtemp(prefix="verif-C10r-")
+    try:
+        with mp.Pool(1, initializer=_init_worker, initargs=(ctx.repo, root)) as pool:
+            if mode == "cli":
+                both = pool.apply(eval_cli, ((item, ctx.repo),))
+                vs = judge_cli(item, both)
+            else:
+                r = pool.apply(eval_item, ((item, ctx.repo),))
+                vs = judge_api(item, r)
+    finally:
+        shutil.rmtree(root, ignore_errors=True)
     return any(v.signature == record["signature"] for v in vs)
